@@ -960,17 +960,58 @@ def trace_geom():
         # (under `explore`: a data-dependent comparison in the source becomes an if-tree instead of an error)
         cart = explore(lambda: [Expr.of(c[0]) for c in G.to_cartesian(one("φ"), one("θ"), one("r"))])
         sph = explore(lambda: [Expr.of(c[0]) for c in G.to_spherical(one("x"), one("y"), one("z"))])
+        # geometry.poles on ONE symbolic orientation matrix and a symbolic crystal direction, for each documented
+        # reference-axes string (the string handling itself is the hand model ModelD.RefAxes; what is re-derived from
+        # the source here is the arithmetic: transpose, contraction with hkl, normalisation, and which component is
+        # handed out as x, y and z).  `la.norm(directions, axis=1)` (SciPy, external) = sqrt of the sum of squares.
+        real_la = G.la
+        G.la = _NormShim(real_la, G.np)
+        try:
+            poles = {}
+            for ra in POLE_STRINGS:
+                poles[ra] = explore(lambda ra=ra: [Expr.of(c[0]) for c in G.poles(sym_matrix("a").reshape(1, 3, 3), ra, sym_vector("h", 3))])
+        finally:
+            G.la = real_la
     finally:
         G.np = real_np
-    return {"cart": cart, "sph": sph}
+    return {"cart": cart, "sph": sph, "poles": poles}
+
+
+POLE_STRINGS = ("xy", "xz", "yx", "yz", "zx", "zy")
+
+
+class _NormShim:
+    """stands in for the module-global `la` (scipy.linalg) of geometry.py: `norm(a, axis=1)` of a 2-D array, symbolically"""
+
+    def __init__(self, real, npshim):
+        self._real = real
+        self._np = npshim
+
+    def __getattr__(self, name):
+        return getattr(self._real, name)
+
+    def norm(self, a, axis=None, **kw):
+        if axis != 1 or getattr(a, "ndim", 0) != 2 or kw:
+            raise TypeError("translator: la.norm is only modelled as the row-wise 2-norm of a 2-D array")
+        out = np.empty(a.shape[0], dtype=object)
+        for i in range(a.shape[0]):
+            acc = a[i, 0] * a[i, 0]
+            for j in range(1, a.shape[1]):
+                acc = acc + a[i, j] * a[i, j]
+            out[i] = self._np.sqrt(acc)
+        return out.view(SymArray)
 
 
 def emit_geom(t, path=None):
     lines = ["-- GENERATED on every run by harness/trace/tracer.py from /repo/src/pydrex/geometry.py -- do not edit",
              "import ModelR.Geom", "noncomputable section", "namespace ModelR.Geom", "",
              "def traced_toCartesian (φ θ r : ℝ) : ℝ × ℝ × ℝ :=", "  (" + ", ".join(tree_lean(t["cart"], lambda v, i=i: v[i]) for i in range(3)) + ")", "",
-             "def traced_toSpherical (x y z : ℝ) : ℝ × ℝ × ℝ :=", "  (" + ", ".join(tree_lean(t["sph"], lambda v, i=i: v[i]) for i in range(3)) + ")", "",
-             "end ModelR.Geom", ""]
+             "def traced_toSpherical (x y z : ℝ) : ℝ × ℝ × ℝ :=", "  (" + ", ".join(tree_lean(t["sph"], lambda v, i=i: v[i]) for i in range(3)) + ")", ""]
+    for ra in POLE_STRINGS:
+        lines += [f"/-- `poles(a[None], \"{ra}\", h)`: (xvals[0], yvals[0], zvals[0]) -/",
+                  f"def traced_poles_{ra} (a : Mat3) (h : Vec3) : ℝ × ℝ × ℝ :=",
+                  "  (" + ",\n   ".join(tree_lean(t["poles"][ra], lambda v, i=i: v[i]) for i in range(3)) + ")", ""]
+    lines += ["end ModelR.Geom", ""]
     text = "\n".join(lines)
     path = path or (GEN / "TracedGeom.lean")
     if not path.exists() or path.read_text() != text:
@@ -988,6 +1029,12 @@ def selfcheck_geom(t, reps=10, seed=0):
             return ["to_cartesian"]
         if not np.allclose([tree_eval(t["sph"], lambda v, i=i: v[i], env) for i in range(3)], np.ravel(G.to_spherical(env["x"], env["y"], env["z"])), rtol=1e-13):
             return ["to_spherical"]
+        env["a"] = rng.normal(size=(3, 3)).tolist()
+        env["h"] = rng.normal(size=3).tolist()
+        for ra in POLE_STRINGS:
+            want = np.ravel(G.poles(np.array([env["a"]]), ra, env["h"]))
+            if not np.allclose([tree_eval(t["poles"][ra], lambda v, i=i: v[i], env) for i in range(3)], want, rtol=1e-13):
+                return ["poles:" + ra]
     return []
 
 
